@@ -93,7 +93,7 @@ def run (inp obs : List String) : Verdict :=
   else
     let pre := (field first "pre").getD ""
     let l1toks := first.filter isFontTok
-    let v := Driver.C01.run ("C01" :: "o=t.1.d" :: l1toks) (("pre=" ++ pre) :: second)
+    let v := Driver.C01.runCore ("C01" :: "o=t.1.d" :: l1toks) (("pre=" ++ pre) :: second)
     let mw := (field second "mw").getD "?"
     let gf := (field second "gf").getD ""
     let saved := (field second "load").getD "?" = "ok"
